@@ -1620,8 +1620,13 @@ func runC16ColChars(c *Ctx) {
 				// e = ph + t1 + t2 ...: collect the added terms
 				var terms []ssa.Value
 				var walk func(v ssa.Value, d int)
+				self := false
 				walk = func(v ssa.Value, d int) {
-					if d > 6 || v == ssa.Value(ph) {
+					if v == ssa.Value(ph) {
+						self = true
+						return
+					}
+					if d > 6 {
 						return
 					}
 					if bo, ok := v.(*ssa.BinOp); ok && bo.Op == token.ADD {
@@ -1632,6 +1637,10 @@ func runC16ColChars(c *Ctx) {
 					terms = append(terms, v)
 				}
 				walk(e, 0)
+				if !self {
+					// not an accumulator: a value found anew on every iteration (`i = strings.Index(..)` of a for clause)
+					continue
+				}
 				for _, t := range terms {
 					n++
 					construct := fmt.Sprintf("(*RuleExpression).checkExprsIn|unit of the offset added to the column#%d", n)
